@@ -24,9 +24,9 @@ META = dict(
     note="Bound: g_max <= 5 1/A (a few thousand reflections), <= 8 atoms. Tolerance 1e-5 of max|F| (float32 scattering factors).",
 )
 CRYSTALS = ["Si", "Au", "Fe", "Po_sc", "ortho2", "A_ortho", "B_ortho", "C_ortho", "noncentred3", "hex_ortho",
-            "graphite_hex", "Mg_hcp", "monoclinic2", "triclinic3", "ortho2_rotated"]
+            "graphite_hex", "Mg_hcp", "monoclinic2", "triclinic3", "ortho2_rotated", "MgO_CaSub"]
 CENTERING = {"Si": "F", "Au": "F", "Fe": "I", "Po_sc": "P", "ortho2": "P", "A_ortho": "A", "B_ortho": "B", "C_ortho": "C", "noncentred3": "P", "hex_ortho": "C",
-             "graphite_hex": "P", "Mg_hcp": "P", "monoclinic2": "P", "triclinic3": "P", "ortho2_rotated": "P"}
+             "MgO_CaSub": "P", "graphite_hex": "P", "Mg_hcp": "P", "monoclinic2": "P", "triclinic3": "P", "ortho2_rotated": "P"}
 SIGMAS = [0.0, 0.08, "element"]
 
 
@@ -62,6 +62,12 @@ def crystal(name):
     # cells whose 3x3 matrix is NOT symmetric (fractional coordinates = positions @ inv(cell), not its transpose)
     if name == "Mg_hcp":
         return bulk("Mg")
+    if name == "MgO_CaSub":  # rock salt with ONE cation replaced: the lightest species (O) alone is F-centred, the crystal is primitive
+        m = bulk("MgO", "rocksalt", a=4.21, cubic=True)
+        sy = m.get_chemical_symbols()
+        sy[sy.index("Mg")] = "Ca"
+        m.set_chemical_symbols(sy)
+        return m
     if name == "monoclinic2":
         return ase.Atoms("SiC", scaled_positions=[(0.1, 0.2, 0.3), (0.6, 0.45, 0.8)], cell=[[3.2, 0, 0], [0, 4.1, 0], [-1.1, 0, 5.0]], pbc=True)
     if name == "triclinic3":
